@@ -32,15 +32,13 @@ def plan(tier, seed):
                             dict(n=3, m=2, labels='letters_rev', schemes='one', configs='solver', **nr),
                             dict(n=3, m=2, labels='mixed_strings', schemes='one_b', configs='solver', **nr),
                             dict(n=2, m=3, labels='ints', schemes='one', configs='solver', **nr),
-                            dict(space='ext43', labels='mixed_strings', schemes='ext1', configs='decomp', per=300, **nr)],
+                            dict(space='ext43', labels='mixed_strings', schemes='ext1', configs='decomp', per=300, flags='one', **nr)],
             'stub': [dict(n=3, m=2, labels='ints', schemes='two', configs='solver'),
                      dict(n=3, m=2, labels='letters', schemes='one', configs='solver', **nr),
                      dict(n=3, m=2, labels='mixed_strings', schemes='one_b', configs='solver', **nr),
                      dict(n=2, m=3, labels='ints_rev', schemes='one', configs='solver', **nr),
                      dict(n=1, m=2, labels='ints', schemes='two', configs='all'),
-                     dict(n=4, m=2, labels='ints', schemes='one_b', configs='cplex', per=60, flags='one'),
-                     dict(space='ext43', labels='mixed_strings', schemes='ext1', configs='decomp', per=300),
-                     dict(space='ext43', labels='mixed_zeros', schemes='ext1', configs='decomp', per=300),
+                     dict(space='ext43', labels='mixed_zeros', schemes='ext1', configs='decomp', per=300, flags='one'),
                      dict(space='ext43', labels='ints', twin_labels='mixed_strings', schemes='ext1', configs='decomp', per=300,
                           reuse=True, flags='one')],
         }
